@@ -70,6 +70,21 @@ def first_match_on(tree, s):
     return ""
 
 
+def splitter_calls(ctx, f):
+    """[(statement, call)] of the calls in f that split text into lines: the value of an
+    assignment, or an argument handed straight on (`self.set_contents(splitlines(text))`)"""
+    out = []
+    for c in calls_in(f.node):
+        if ctx.m.enclosing_func(c) is not f:
+            continue
+        k = splitter_of(ctx, f, c)
+        if k[0] in ("regex", "str.splitlines", "str.split"):
+            st = ctx.m.enclosing_stmt(c)
+            if isinstance(st, ast.Assign) and st.value is c or isinstance(ctx.m.parent.get(c), ast.Call):
+                out.append((st, c))
+    return out
+
+
 def r1_r2(ctx, R):
     R.rule("C02.R1", "the line splitter recognises exactly LF, CRLF and CR, and never splits a CRLF in two", floor=2, confirmed=2)
     R.rule("C02.R2", "trailing-newline handling agrees with the splitter (no extra / missing last line)", floor=1, confirmed=1)
@@ -79,11 +94,9 @@ def r1_r2(ctx, R):
     # ingestion 1: load_from_disk -> contents_split = X(contents)
     sites = []
     for f in (ld, ed):
-        for st in ctx.m.walk_own(f.node):
-            if isinstance(st, ast.Assign) and isinstance(st.value, ast.Call):
-                k = splitter_of(ctx, f, st.value)
-                if k[0] in ("regex", "str.splitlines", "str.split"):
-                    sites.append((f, st, k))
+        for st, call in splitter_calls(ctx, f):
+            k = splitter_of(ctx, f, call)
+            sites.append((f, st, k))
     if len(sites) < 2:
         raise AnalysisError(f"line splitter use sites: found {len(sites)} (expected both ingestion paths)")
     kinds = set()
@@ -121,7 +134,7 @@ def r1_r2(ctx, R):
     # local holding the split change text
     split_local = None
     for ff, st, k in sites:
-        if ff is f and isinstance(st.targets[0], ast.Name):
+        if ff is f and isinstance(st, ast.Assign) and isinstance(st.targets[0], ast.Name):
             split_local = st.targets[0].id
             split_kind = k[0]
     if split_local is None:
